@@ -403,6 +403,15 @@ fn schemas() -> Vec<Schema> {
             keys: vec![("va".into(), "w".into())],
             dom: vdom,
         },
+        Schema {
+            // as above, and the clashing columns have ONE type: a data column of a is named like (and typed like) the
+            // key column of b; key names differ
+            id: "k1-cross-same",
+            a: vec![nul(), cs("ida", UINT8, &[], Role::Key(0)), cs("idb", UINT8, &[], Role::Pay)],
+            b: vec![nul(), cs("idb", UINT8, &[], Role::Key(0)), cs("pb", BIT, &[3], Role::Pay)],
+            keys: vec![("ida".into(), "idb".into())],
+            dom: vec![vec![vec![0]], vec![vec![1]], vec![vec![128]], vec![vec![255]]],
+        },
     ]
 }
 
@@ -751,7 +760,7 @@ fn run_plain_task(t: &PlainTask, want_samples: bool) -> Out {
             // is named like a key column of b, that inner left join violates the documented naming rule (both
             // tables have a non-participating column of one name), so the full join is undefined there and a
             // rejection at graph-building time is the documented behaviour; Inner/Left/Union must still build.
-            if jt_name(t.jt) == "Full" && s.id == "k1v-cross" {
+            if jt_name(t.jt) == "Full" && (s.id == "k1v-cross" || s.id == "k1-cross-same") {
                 o.count("full_join_rejected_where_documented_decomposition_is_ill_typed", 1);
                 return o;
             }
@@ -974,9 +983,12 @@ fn run_compiled_one(
     let plain = plain_inputs(a, b, oc.split_a);
     let mut sm = SplitMix(case_seed ^ 0x5eed_c19);
     let mut share_bytes = move || (sm.next() & 0xff) as u8;
-    if mode == "global" {
+    if mode == "global" || mode == "global-hash-collision" {
         let gi = mpcx::global_inputs(&c.types, &c.owners, &plain, &mut share_bytes);
-        match mpcx::eval_compiled_global(&c.plan, &gi, case_seed, &mut RealRandomness) {
+        // degenerate randomness: two of the three Cuckoo/simple hash functions identical (see c01::HashCollide)
+        let mut collide = super::c01::HashCollide((case_seed % 3) as usize, case_seed);
+        let oracle: &mut dyn crate::exec::Oracle = if mode == "global" { &mut RealRandomness } else { &mut collide };
+        match mpcx::eval_compiled_global(&c.plan, &gi, case_seed, oracle) {
             Err(m) => {
                 if is_cuckoo(&m) {
                     Verdict::AllowedAbort
@@ -1084,18 +1096,21 @@ fn run_comp_task(t: &CompTask, want_samples: bool) -> Out {
                 let j = if idx % 2 == 1 { 0xffu8 } else { 0x00u8 };
                 if matches!(t.jt, JoinType::Union | JoinType::Full) {
                     // the three-party run of these is a known finding: keep the protocol logic covered by the global run
-                    vec![("global", 0u8), ("three", j)]
+                    vec![("global", 0u8), ("three", j), ("global-hash-collision", 0u8)]
                 } else {
-                    vec![("three", j)]
+                    vec![("three", j), ("global-hash-collision", 0u8)]
                 }
             } else {
-                vec![("global", 0u8), ("three", 0x00u8), ("three", 0xffu8)]
+                vec![("global", 0u8), ("three", 0x00u8), ("three", 0xffu8), ("global-hash-collision", 0u8)]
             };
             for (mode, junk) in runs {
                 let case_seed = t.seed
                     ^ hash_str(&format!("{}|{}|{}|{}|{}|{}|{}", s.id, jt_name(t.jt), t.masked, t.oc.name, t.na, t.nb, idx));
                 o.count("evaluations", 1);
-                o.count(if mode == "global" { "compiled_global_runs" } else { "compiled_three_party_runs" }, 1);
+                o.count(if mode.starts_with("global") { "compiled_global_runs" } else { "compiled_three_party_runs" }, 1);
+                if mode == "global-hash-collision" {
+                    o.count("compiled_runs_with_two_identical_hash_functions", 1);
+                }
                 if nontrivial {
                     o.distinct.push(hash_str(&format!(
                         "c|{}|{}|{}|{}|{:?}|{:?}|{}|{}",
@@ -1111,14 +1126,14 @@ fn run_comp_task(t: &CompTask, want_samples: bool) -> Out {
                 }
                 match run_compiled_one(&c, &t.oc, a, b, &expected, mode, junk, case_seed) {
                     Verdict::Ok => {
-                        o.count(if mode == "global" { "compiled_global_ok" } else { "compiled_three_party_ok" }, 1);
+                        o.count(if mode.starts_with("global") { "compiled_global_ok" } else { "compiled_three_party_ok" }, 1);
                         if exp_t.cols[exp_t.null_idx()].data.iter().any(|x| *x == 1) {
                             o.count("compiled_ok_with_nonempty_result", 1);
                         }
                     }
                     Verdict::AllowedAbort => o.count("allowed_cuckoo_aborts", 1),
                     Verdict::Bad(kind, msg) => {
-                        let modename = if mode == "global" { "global" } else { "3party" };
+                        let modename = if mode.starts_with("global") { "global" } else { "3party" };
                         // joins with column masks share one defect across owner classes (see known findings): no class
                         let mut sig = if t.masked {
                             format!("C19:compiled-{}:masked:{}", modename, jt_name(t.jt))
@@ -1304,6 +1319,25 @@ fn comp_tasks(thorough: bool, seed: u64) -> Vec<CompTask> {
                 cfgs: [0usize, 2].iter().map(|i| (ocs[*i].clone(), vec![(2, 2)])).collect(),
                 alternate_junk: false,
             },
+            // E: key names differ and a data column of the first table is named and typed like the key of the second
+            Variant {
+                sid: "k1-cross-same",
+                masked: false,
+                jts: vec![JoinType::Inner, JoinType::Left, JoinType::Union],
+                alpha: vec![nul(1), live(0, 1, 1), live(1, 1, 1)],
+                alpha22: None,
+                cfgs: [0usize, 2].iter().map(|i| (ocs[*i].clone(), vec![(2, 2), (1, 2)])).collect(),
+                alternate_junk: false,
+            },
+            Variant {
+                sid: "k1-cross-same",
+                masked: true,
+                jts: vec![JoinType::Inner, JoinType::Left, JoinType::Union],
+                alpha: vec![nul(1), live(0, 1, 1), live(1, 1, 0)],
+                alpha22: None,
+                cfgs: vec![(ocs[0].clone(), vec![(2, 1)])],
+                alternate_junk: false,
+            },
             // D: a two-bit key (rows of the padded cuckoo table collide with real keys with probability 1/4)
             Variant {
                 sid: "kb-eq",
@@ -1333,6 +1367,15 @@ fn comp_tasks(thorough: bool, seed: u64) -> Vec<CompTask> {
                 sid: "kb-eq",
                 masked: false,
                 jts: vec![JoinType::Inner],
+                alpha: vec![nul(1), live(0, 1, 1), live(1, 1, 1)],
+                alpha22: None,
+                cfgs: vec![(ocs[0].clone(), vec![(2, 2)])],
+                alternate_junk: true,
+            },
+            Variant {
+                sid: "k1-cross-same",
+                masked: false,
+                jts: vec![JoinType::Inner, JoinType::Left, JoinType::Union],
                 alpha: vec![nul(1), live(0, 1, 1), live(1, 1, 1)],
                 alpha22: None,
                 cfgs: vec![(ocs[0].clone(), vec![(2, 2)])],
